@@ -1,6 +1,10 @@
 """C04 - solving a period touches only that period; reads never wrap round the span."""
 from contracts.c02_solve_t import SolveTContract
+import os
+
+from contracts.c01_programs import ProgramsContract, catalogue
 from contracts.c05_solve import SolveContract
+from props.parser_bounded import EvaluateDifferential
 from props.solve_bounded import SolveTScripted
 from verif.spec import PropertySpec
 
@@ -9,8 +13,8 @@ _c.shards = {'generic/offset0': 2, 'parser/offset0': 2, 'generic/offset': 6, 'pa
 
 PROPERTY = PropertySpec(
     id='C04',
-    contracts=[_c, SolveContract()],
-    bounded=[SolveTScripted()],
+    contracts=[_c, SolveContract(), ProgramsContract(catalogue(os.environ.get('VERIF_TIER', 'quick'), int(os.environ.get('VERIF_SEED', '0'))))],
+    bounded=[SolveTScripted(), EvaluateDifferential()],
     level='other',
     explanation='Frame obligations of BaseModel.solve_t from its real source: status/iterations change only at t; the three up-front '
                 'rejections leave the whole state unchanged; under the parser-built interface contract (an evaluation pass writes only '
